@@ -7,6 +7,7 @@
  * with '..', and for which is_regular_file answered true". */
 #ifndef ASSETS_FS_MODEL_H
 #define ASSETS_FS_MODEL_H
+#include "../assets_lexical/lex_contract.h"   /* the contract of lexicallyRejected: PROVED in unit assets_lexical, ASSUMED here */
 #include <fcntl.h>      /* the platform's real O_RDONLY / O_NOFOLLOW / O_CLOEXEC values */
 
 
@@ -75,15 +76,15 @@ static inline const iora_path *iora_path_c_str(const iora_path *p) { return p; }
 
 /* ---- the ordering predicates (by-value macros over ids) ---- */
 #define P_REL(id) (G_path[id].last_rel - 1)
-#define P_CONTAINED(id) (G_path[id].last_rel != 0 && G_path[id].last_rel <= IORA_NP \
-   && G_path[P_REL(id)].rel_base != 0 && G_path[P_REL(id)].rel_base <= IORA_NP \
+#define P_CONTAINED(id) (G_npaths <= IORA_NP && G_path[id].last_rel != 0 && G_path[id].last_rel <= G_npaths \
+   && G_path[P_REL(id)].rel_base != 0 && G_path[P_REL(id)].rel_base <= G_npaths \
    && G_path[G_path[P_REL(id)].rel_base - 1].root_kind == G_root_kind && G_root_kind != 0 \
    && !G_path[P_REL(id)].empty && !G_path[P_REL(id)].first_dotdot)
 /* (i) came out of weakly_canonical, (ii) inside the construction-time root, (iii) is_regular_file said yes */
 #define P_READ_OK(id) ((id) < IORA_NP && G_path[id].canon && P_CONTAINED(id) && G_path[id].regular)
 /* the ".gz" sibling of such a value: same (canonical, contained) directory; regular; a symlinked leaf is refused by O_NOFOLLOW */
 #define P_SIB(id) (G_path[id].sibling_of - 1)
-#define P_SIB_OK(id) ((id) < IORA_NP && G_path[id].sibling_of != 0 && G_path[id].sibling_of <= IORA_NP \
+#define P_SIB_OK(id) ((id) < IORA_NP && G_npaths <= IORA_NP && G_path[id].sibling_of != 0 && G_path[id].sibling_of <= G_npaths \
    && G_path[P_SIB(id)].canon && P_CONTAINED(P_SIB(id)) && G_path[id].regular)
 #define P_OPEN_OK(id) (P_READ_OK(id) || P_SIB_OK(id))
 
@@ -107,8 +108,10 @@ typedef struct { iora_strobj bytes; int etag; iora_strobj gzipBytes; int gzipEta
 typedef const StaticCacheEntry *iora_entry;                                    /* shared_ptr<[const] StaticCacheEntry> */
 #define ENTRY_OK(e) ((e)->bytes.present && (e)->bytes.read_ok && (!(e)->gzipBytes.present || (e)->gzipBytes.read_ok))
 static inline int computeEtag(iora_strobj s) { (void)s; return nondet_int(); }
-static inline StaticCacheEntry *iora_make_entry(void) { StaticCacheEntry *e = (StaticCacheEntry *)malloc(sizeof(StaticCacheEntry)); StaticCacheEntry z = {{0,0,0},0,{0,0,0},0}; *e = z; return e; }
-static inline iora_strp iora_make_shared_str(iora_strobj s) { iora_strobj *r = (iora_strobj *)malloc(sizeof(iora_strobj)); *r = s; return r; }
+/* make_shared: one ghost object per kind is enough (each function under proof allocates at most one of each per call) */
+StaticCacheEntry G_new_entry; iora_strobj G_shared_str;
+static inline StaticCacheEntry *iora_make_entry(void) { StaticCacheEntry z = {{0,0,0},0,{0,0,0},0}; G_new_entry = z; return &G_new_entry; }
+static inline iora_strp iora_make_shared_str(iora_strobj s) { G_shared_str = s; return &G_shared_str; }
 
 typedef struct { iora_sv s; } iora_key;
 static inline iora_key iora_key_from_sv(iora_sv s) { iora_key k; k.s = s; return k; }
@@ -121,12 +124,13 @@ typedef struct { iora_entry second; } iora_scache_slot;
 typedef const iora_scache_slot *iora_scache_it;
 typedef struct { int dummy; } iora_scache;
 StaticCacheEntry nondet_entry(void); iora_strobj nondet_strobj(void);
+StaticCacheEntry G_cached_entry; iora_scache_slot G_scache_slot;      /* the slot a cache hit points at */
 static inline iora_scache_it iora_scache_find(iora_scache *c, iora_key k)
 {
   (void)c; (void)k;
   if (nondet_bool()) return NULL;
-  StaticCacheEntry *e = (StaticCacheEntry *)malloc(sizeof(StaticCacheEntry)); *e = nondet_entry(); IORA_ASSUME(ENTRY_OK(e));
-  iora_scache_slot *s = (iora_scache_slot *)malloc(sizeof(iora_scache_slot)); s->second = e; return s;
+  G_cached_entry = nondet_entry(); IORA_ASSUME(ENTRY_OK(&G_cached_entry));
+  G_scache_slot.second = &G_cached_entry; return &G_scache_slot;
 }
 static inline iora_scache_it iora_scache_end(iora_scache *c) { (void)c; return NULL; }
 static inline void iora_scache_emplace(iora_scache *c, iora_key k, iora_entry e)
@@ -135,12 +139,13 @@ static inline void iora_scache_emplace(iora_scache *c, iora_key k, iora_entry e)
 typedef struct { iora_strp second; } iora_tcache_slot;
 typedef const iora_tcache_slot *iora_tcache_it;
 typedef struct { int dummy; } iora_tcache;
+iora_strobj G_cached_str; iora_tcache_slot G_tcache_slot;
 static inline iora_tcache_it iora_tcache_find(iora_tcache *c, iora_key k)
 {
   (void)c; (void)k;
   if (nondet_bool()) return NULL;
-  iora_strobj *e = (iora_strobj *)malloc(sizeof(iora_strobj)); *e = nondet_strobj(); IORA_ASSUME(e->present && e->read_ok);
-  iora_tcache_slot *s = (iora_tcache_slot *)malloc(sizeof(iora_tcache_slot)); s->second = e; return s;
+  G_cached_str = nondet_strobj(); IORA_ASSUME(G_cached_str.present && G_cached_str.read_ok);
+  G_tcache_slot.second = &G_cached_str; return &G_tcache_slot;
 }
 static inline iora_tcache_it iora_tcache_end(iora_tcache *c) { (void)c; return NULL; }
 static inline void iora_tcache_emplace(iora_tcache *c, iora_key k, iora_strp e)
